@@ -24,7 +24,7 @@ def g_classes(g, stats_list) -> List[dg.G]:
 def families(tier: str) -> List[Tuple[str, Any]]:
     if tier == "quick":
         return [("one", [(), ("a",), ("a", "ab")]), ("two", [(), ("a",)])]
-    return [("one", [(), ("a",), ("a", "b"), ("a", "ab")]), ("two", [(), ("a",)]), ("two_b", [(), ("a", "ab")]), ("three", [()])]
+    return [("one", [(), ("a",), ("a", "b"), ("a", "ab")]), ("two", [(), ("a",)]), ("two_b_s", [(), ("a", "ab")]), ("three_s", [()])]
 
 
 def _worker(arg) -> Acc:
